@@ -127,14 +127,14 @@ def s3(ctx, rep):
 def s4(ctx, rep, clause="S4"):
     P = ctx.P
     f = P.method("StoppingRungSystem", "_task_continues")
-    rets = [r for r in returns_of(f) if isinstance(r.value, ast.IfExp)]
-    if len(rets) != 1:
-        raise AnchorError("StoppingRungSystem._task_continues: mode-dependent comparison not of the form `A if mode == .. else B`")
-    ie = rets[0].value
-    m = parity.mode_test(ie.test)
-    if m is None:
-        raise AnchorError(f"_task_continues: `{U(ie.test)}` is not a recognised mode test")
-    arm_min, arm_max = (ie.body, ie.orelse) if m == "min" else (ie.orelse, ie.body)
+    from ..engine import value_choices
+    ch = [c_ for c_ in value_choices(f) if parity.mode_test(c_[1]) is not None and
+          (c_[4] == "return" or any(r.value is c_[0] for r in returns_of(f)))]
+    if len(ch) != 1:
+        raise AnchorError("StoppingRungSystem._task_continues: no single two-way choice of the returned comparison on the mode")
+    ie, tst, a_t, a_f, _ = ch[0]
+    m = parity.mode_test(tst)
+    arm_min, arm_max = (a_t, a_f) if m == "min" else (a_f, a_t)
     ok = parity.dual_compare(arm_min, arm_max)
     cm = parity.cmp_canon(arm_min)
     # direction: for min, value <= cutoff continues (equality continues)
